@@ -1,6 +1,7 @@
 package props
 
 import (
+	"strings"
 	"fmt"
 
 	"ndndcheck/core"
@@ -20,12 +21,26 @@ func DumpOptDerefs(p *core.Prog, pkgs []string) {
 
 // DumpExplore: exploratory run of the generic round-4 rules over other packages (maintenance aid).
 func DumpExplore(p *core.Prog) {
-	for _, pk := range []string{"dv/dv", "dv/table", "std/sync", "std/engine/basic", "fw/mgmt", "std/security", "std/schema", "std/schema/rdr", "std/schema/svs", "tools/dvc", "tools/nfdc"} {
+	for _, pk := range []string{"dv/dv", "dv/table", "dv/nfdc", "std/sync", "std/engine/basic", "std/engine/face", "fw/mgmt", "fw/fw", "fw/table", "fw/face", "std/security", "std/schema", "std/schema/rdr", "std/schema/svs", "std/utils", "std/ndn/spec_2022", "tools/dvc", "tools/nfdc"} {
 		c := core.NewCtx(p, "x", "quick")
 		c15Aliasing(c, core.ModPath+"/"+pk)
 		for _, o := range c.Obls {
 			if o.Status != core.OK {
 				fmt.Println("ALIAS", pk, o.Key, o.Pos, o.Detail[:min(len(o.Detail), 260)])
+			}
+		}
+	}
+	for pk := range p.Pkgs {
+		if !strings.HasPrefix(pk, core.ModPath) {
+			continue
+		}
+		for _, fn := range p.FuncsIn(pk) {
+			if strings.HasSuffix(p.File(fn.Pos()), "_test.go") || strings.HasSuffix(p.File(fn.Pos()), "zz_generated.go") {
+				continue
+			}
+			c := core.NewCtx(p, "x", "quick")
+			if n, b := durationScalings(c, fn); n > 0 {
+				fmt.Println("DURSCALE", core.FuncName(fn), n, b)
 			}
 		}
 	}
